@@ -143,6 +143,38 @@ def _judge_reused(ctx, make_target, data, canon, ref, mech, wit):
         return
     if enc != ref:
         ctx.violation(f"decode-into-used-object-keeps-or-mixes-old-value:{mech}", {**wit, "encoded": enc[:120], "canonical": ref[:120], "held_before": pre[:60]})
+        return
+    # the same for an object whose value was *set* with an explicitly typed variable (element type / length limit of its own):
+    # what is decoded later replaces that variable, it is not squeezed into it
+    V = sv.V
+    fmt = canon[0]
+    try:
+        obj = make_target()
+        if not isinstance(obj, V.Dynamic):
+            return
+        if fmt == "L":
+            typed = V.Array(V.U4, [1, 2])
+        elif fmt in ("A", "J"):
+            typed = sv.VCLS[fmt]("ab", count=2)
+        elif fmt == "B":
+            typed = V.Binary(b"\x01", count=1)
+        elif fmt == "BOOLEAN":
+            typed = V.Boolean(True, count=1)
+        else:
+            typed = sv.VCLS[fmt](1, count=1)
+        obj.set(typed)
+    except Exception:
+        ctx.count("reused_target.typed_set_not_accepted")
+        return
+    ctx.count("oracle.decode_into_object_set_with_a_typed_variable")
+    try:
+        pos = obj.decode(data)
+        enc = obj.encode()
+    except Exception as exc:
+        ctx.violation(f"decode-raises:object-set-with-typed-variable:{mech}:{type(exc).__name__}", {**wit, "error": repr(exc)[:200], "held_before": repr(typed)[:60]})
+        return
+    if pos != len(data) or enc != ref:
+        ctx.violation(f"decode-into-used-object-keeps-or-mixes-old-value:typed-set:{mech}", {**wit, "encoded": enc[:120], "canonical": ref[:120], "held_before": repr(typed)[:60]})
 
 
 def _enumerate_code_lenbytes(ctx):
